@@ -166,7 +166,11 @@ def gen_script(rng, solvers=L.SOLVERS, nops=(3, 9), p_mid=0.5, allow_modes=False
             if m == "limits" and limits:
                 ops.append(gen_limits(rng))
             elif m == "term":
-                ops.append(dict(op="SetTermination", term=gen_term(rng)))
+                o_ = dict(op="SetTermination", term=gen_term(rng))
+                ops.append(o_)
+                if rng.random() < 0.4:
+                    o_["defer"] = True           # given as the `termination=` argument of the Step that follows
+                    ops.append(dict(op="Step", cb=rng.random() < 0.3))
             elif m == "pen":
                 ops.append(dict(op="SetPenalty", pen=gen_pen(rng)))
             elif m == "cons" and constraints:
